@@ -82,7 +82,8 @@ def compare(rec, b, mjm, mjd, m, d, cmp, opts):
   import mujoco_warp as mjw
 
   forward_both(mjm, mjd, m, d)
-  if d.overflow.numpy().any():
+  # (forward() alone does not raise the row-overflow bit, step() does: compare the counters with the capacities)
+  if d.overflow.numpy().any() or (d.nefc.numpy() > d.njmax).any() or int(d.nacon.numpy()[0]) > d.naconmax:
     return "skip:overflow"
   got = mujoco.MjData(mjm)
   for w in range(d.nworld):
@@ -102,12 +103,18 @@ def compare(rec, b, mjm, mjd, m, d, cmp, opts):
     nzero = sum(1 for p in prob if p.startswith("zero_jacobian_equality"))
     if nzero:  # known finding F23: MuJoCo emits no rows for an equality that no dof can move; MJWarp emits all-zero rows
       cmp.bad.append(("ne@zero_jacobian_equality", float(nzero), 0.0))
+    T_ = mujoco.mjtConstraint
+    zt = [p for p in prob if p.startswith("zero_jacobian_tendon")]
+    nzt_l = sum(1 for p in zt if f"({int(T_.mjCNSTR_LIMIT_TENDON)}," in p)
+    nzt_f = len(zt) - nzt_l
+    if zt:  # the same for limit / friction rows of a tendon that no dof moves (all-zero Jacobian): MuJoCo leaves the row out
+      cmp.bad.append(("nl@zero_jacobian_tendon", float(len(zt)), 0.0))
     cmp.equal("ne", got.ne - nzero, mjd.ne)
-    cmp.equal("nf", got.nf, mjd.nf)
-    cmp.equal("nl", got.nl, mjd.nl)
-    cmp.equal("nefc", got.nefc - nzero, mjd.nefc)
+    cmp.equal("nf", got.nf - nzt_f, mjd.nf)
+    cmp.equal("nl", got.nl - nzt_l, mjd.nl)
+    cmp.equal("nefc", got.nefc - nzero - len(zt), mjd.nefc)
     for p in prob:
-      if not p.startswith("zero_jacobian_equality"):
+      if not p.startswith(("zero_jacobian_equality", "zero_jacobian_tendon")):
         cmp.bad.append(("rowset", float("nan"), 0.0))
     rr, rg = efc.rows(mjm, mjd), efc.rows(mjm, got)
     if len(ir):
